@@ -30,7 +30,7 @@ var r *report.Run
 
 // Case is the replayable address of one executed case.
 type Case struct {
-	Phase string `json:"phase"` // partset | mutation | headerhash | roundtrip
+	Phase string `json:"phase"` // partset | mutation | headerhash | roundtrip | txroot
 
 	// partset
 	Config  string   `json:"config,omitempty"`
@@ -139,6 +139,8 @@ func rerun(c Case) []obs {
 		return rerunHeaderHash(c)
 	case "roundtrip":
 		return rerunRoundTrip(c)
+	case "txroot":
+		return rerunTxRoot(c)
 	}
 	return []obs{{"C13|machinery|unknown-phase=" + c.Phase, ""}}
 }
@@ -207,20 +209,30 @@ func main() {
 	} else {
 		r.SetDeadline(45 * time.Second)
 	}
+	tSetup := time.Now()
 	setupChain()
 	if r.ReplayPath != "" {
 		replayMain()
 		return
 	}
 
-	for _, b := range family {
-		prepareBase(b)
+	phase := func(name string, f func()) {
+		t0 := time.Now()
+		f()
+		r.Set("wall_s_"+name, time.Since(t0).Seconds())
 	}
-	warmCaches()
-	runPartSets()
-	runHeaderHash()
-	runMutations()
-	runRoundTrips()
+	r.Set("wall_s_setup", time.Since(tSetup).Seconds())
+	phase("prepare", func() {
+		for _, b := range family {
+			prepareBase(b)
+		}
+		warmCaches()
+	})
+	phase("partsets", runPartSets)
+	phase("headerhash", runHeaderHash)
+	phase("txroot_reference", runTxRootReference)
+	phase("mutations", runMutations)
+	phase("roundtrips", runRoundTrips)
 	flush()
 
 	r.Add("states", int64(r.DistinctCount("partset_states")+r.DistinctCount("block_states")))
